@@ -305,7 +305,11 @@ func planC16(p *propDef, tier string, seed uint64, n int) []*Case {
 		N := 3 + i%6
 		mk := func(k int) *scen.Scenario {
 			t := scen.NewTape(s ^ 0xc16)
-			sc := scen.GenCrawl(t, scen.CrawlOpts{Prop: "C16", MinSeeds: k, MaxSeeds: k, Faults: true, BodyVariety: i%2 == 0, Adversarial: true, NoBadSeeds: false, RateLimit: 1 - 2*(i%2)})
+			o := scen.CrawlOpts{Prop: "C16", MinSeeds: k, MaxSeeds: k, Faults: true, BodyVariety: i%2 == 0, Adversarial: true, NoBadSeeds: false, RateLimit: 1 - 2*(i%2), BigBodies: i%3 == 0}
+			if i%2 == 0 {
+				o.ManyHosts = 5 * k // many rate-limited hosts: the limiter table must stay within workers x per-worker concurrency
+			}
+			sc := scen.GenCrawl(t, o)
 			sc.Extra = map[string]string{"footprint": "1"}
 			sc.Sched.MaxSteps = 400000
 			sc.Sched.MaxSimSec = 12 * 3600
